@@ -328,6 +328,12 @@ def C20(ctx):
     ctx.res.cov['exhaustive'] = True
     ctx.run(cases, runtime=False, check=True, build=False, gate=True, allow_typeerr=())
     ctx.run(only_success(ctx.export('FamilyT(p)')), runtime=False, check=True, build=False)
+    # the same criterion for gen, check and show on programs of the semantic families, accepted and rejected for each reason
+    # (a missing input below a binding, cycles, conflicts, unused items, field providers consumed inside their own set, ...)
+    ctx.rules.append('plus gen, check and show on family X (all variants), samples of G (n<=3), M (bases 2, 3), B, G-split: same criterion')
+    for expr, k in [('FamilyX(p, XVariants)', None), (G(3), 150), ('FamilyM(p, {2, 3})', 80), ('FamilyB(p)', 60), ('FamilyGSplit(p, 3)', 60)]:
+        cs = ctx.export(expr, extends='WireShow', caseop='CaseShow', pre_sample=(k if ctx.quick else (k * 8 if k else None)))
+        ctx.run(cs, runtime=False, check=True, show=True, build=False)
 
 
 def C13(ctx):
